@@ -1,5 +1,5 @@
 use crate::{
-    error::{ComputeError, ExecError, MemoryError, OpError, OpResult},
+    error::{ComputeError, ExecError, MemoryError, OpError, OpResult, OutOfGasError},
     Access, Gas, GasLimit, LazyCache, Memory, Op, OpAccess, OpGasCost, Repeat, Stack, StateReads,
     Vm,
 };
@@ -128,8 +128,21 @@ where
 
     let oks = results.map_err(|e| OpError::Compute(ComputeError::Exec(Box::new(e))))?;
 
+    // The compute programs share the gas limit, so check their total spend against it.
+    let mut total_gas: Gas = 0;
+    for (gas, ..) in &oks {
+        total_gas = total_gas
+            .checked_add(*gas)
+            .filter(|&spent| spent <= gas_limit.total)
+            .ok_or(OutOfGasError {
+                spent: total_gas,
+                op_gas: *gas,
+                limit: gas_limit.total,
+            })?;
+    }
+
     // Process compute program results.
-    let (pc, total_gas, halt) = compute_effects(memory, pc, halt, oks)?;
+    let (pc, halt) = compute_effects(memory, pc, halt, oks)?;
 
     parent_memory.pop();
 
@@ -139,15 +152,13 @@ where
 // Allocates the resulting memories from compute programs to the parent VM memory.
 // Updates parent VM program counter to the largest pc returned from the compute programs.
 //
-// Returns maximum program counter and total gas spent in compute programs.
+// Returns maximum program counter and whether any compute program halted.
 fn compute_effects(
     memory: &mut Memory,
     mut pc: usize,
     mut halt: bool,
     compute_results: Vec<(Gas, usize, Memory, bool)>,
-) -> Result<(usize, Gas, bool), MemoryError> {
-    let mut total_gas = 0;
-
+) -> Result<(usize, bool), MemoryError> {
     let mut memory_to_alloc = 0;
     compute_results
         .iter()
@@ -157,13 +168,12 @@ fn compute_effects(
     // allocate enough space in the parent memory at once
     memory.alloc(memory_to_alloc)?;
     // concat compute memories to parent memory one by one
-    compute_results.iter().for_each(|(gas, c_pc, mem, h)| {
+    compute_results.iter().for_each(|(_, c_pc, mem, h)| {
         pc = std::cmp::max(pc, *c_pc);
-        total_gas += gas;
         memory.store_range(memory_pointer, mem).expect("for now");
         memory_pointer += mem.len().unwrap();
         halt |= h;
     });
 
-    Ok((pc, total_gas, halt))
+    Ok((pc, halt))
 }
